@@ -7,7 +7,7 @@ def run(tree, rep, tier):
     flow = Flow(tree)
     flow.describe(rep)
     B1_B2_counts(rep, flow, want=("B1",))
-    W1_W2_builders(rep, flow, want=("W2",))
+    W1_W2_builders(rep, flow, want=("W2",), builders=["tomography.full_state_tomography_circuits"])
     W3_indexing(rep, flow)
     W_fitter(rep, flow, want=("W4", "W5", "S1"))
     S2_estimator(rep, flow)
